@@ -6,6 +6,7 @@
 //!   C04 idx <ctor> <words> <len>                     built index arrays (hook `index_view`)
 //!   C04 free <words> <len> <fc|fo|enc> <positions>   `trees::{find_close,find_open,enclose}`, |words| = ceil(len/64)
 //!   C04 surplus <words> <len> fc <positions>         same, with whole words beyond ceil(len/64) (finding F1, repaired)
+//!   C04 big <opens> <closes> <op> <positions>      manual replays only: chain built in the harness, closed-form oracle
 //!   C04 wk <word> <valid_bits>                       word_min_excess / _i32 (/_unrolled, max_excess_rev when 64)
 //!   C04 fcw <word> <start_bit> <excess> <valid_bits> find_close_in_word_fast
 //!   C04 l1b <mins> <excs> <num_l1>                   L1 builder (SSE4.1 in the `simd` build, scalar reference otherwise)
@@ -214,6 +215,52 @@ pub fn exec(a: &[&str]) -> String {
                 })
                 .collect();
             groups.join(";")
+        }
+        // big <opens> <closes> <op> <positions>: a chain of `opens` opens followed by `closes` closes
+        // (len = opens + closes), built in the harness (manual replays only: 2^31 bits = 256 MiB),
+        // answered by BalancedParens::new and compared with the closed-form linear-scan answer.
+        "big" => {
+            let opens: usize = num(a[1]);
+            let closes: usize = num(a[2]);
+            let len = opens + closes;
+            let mut words = vec![0u64; len.div_ceil(64)];
+            for w in 0..opens / 64 {
+                words[w] = u64::MAX;
+            }
+            if opens % 64 != 0 {
+                words[opens / 64] = (1u64 << (opens % 64)) - 1;
+            }
+            let bp = BalancedParens::<Vec<u64>, NoSelect>::new(words, len);
+            let mut out = Vec::new();
+            let mut fails = Vec::new();
+            for p in nums(a[4]) {
+                let exc: i128 = if p < opens { p as i128 + 1 } else { 2 * opens as i128 - p as i128 - 1 };
+                let (got, want) = match a[3] {
+                    "fc" => {
+                        let c = 2 * opens as u128 - 1 - (p as u128).min(2 * opens as u128 - 1);
+                        let want = if p < opens && (c as usize) < len { Some(c as usize) } else { None };
+                        (opt(bp.find_close(p)), opt(want))
+                    }
+                    "depth" => {
+                        let want = if p < len && exc >= 0 { Some(exc as usize) } else { None };
+                        let got = bp.depth(p);
+                        // a negative excess has no depth: only compare where the scan defines one
+                        (opt(got), if p < len && exc < 0 { opt(got) } else { opt(want) })
+                    }
+                    "excess" => (bp.excess(p).to_string(), if p < len { exc.to_string() } else { "0".into() }),
+                    "rank1" => (bp.rank1(p).to_string(), p.min(opens).to_string()),
+                    _ => ("BAD-OP".into(), "BAD-OP".into()),
+                };
+                if got != want {
+                    fails.push(format!("ORACLE-FAIL@{p}:{want}"));
+                }
+                out.push(got);
+            }
+            if fails.is_empty() {
+                list(&out)
+            } else {
+                format!("{} {}", list(&out), fails.join(" "))
+            }
         }
         "wk" => {
             let w = u64::from_str_radix(a[1], 16).unwrap();
